@@ -73,7 +73,7 @@ def run(eng, ctx, with_socket=True):
     lid, info = loops[0]
     consumes = []
     for e in se.effects:
-        if e.kind == "call" and e.term[2][0] == "attr" and e.term[2][1] == ins and e.term[2][2] in ("readline", "read", "read1", "readinto", "getvalue", "seek"):
+        if e.kind == "call" and e.term[2][0] == "attr" and e.term[2][1] == ins and e.term[2][2] in ("readline", "read", "read1", "readinto", "seek"):  # getvalue() / tell() observe the segment without consuming from it
             consumes.append(e)
     ctx.instance("consume sites", len(consumes), 3)
     rets = [e for e in se.effects if e.kind == "return"]
@@ -91,11 +91,16 @@ def run(eng, ctx, with_socket=True):
 
     okshape = all(pair(r) is not None for r in rets) and len(post) <= 1 and bool(rets)
     outv = partv = None
+    part_expr = None
     if okshape and post:
         a, b = pair(post[0])
-        okshape = a[0] == "loopout" and b[0] == "loopout"
+        okshape = a[0] == "loopout"
         if okshape:
-            outv, partv = a[2], b[2]
+            outv = a[2]
+            if b[0] == "loopout":
+                partv = b[2]
+            else:
+                part_expr = b  # an expression over loop-carried values (e.g. the bytes between two stream positions), evaluated per exit below
     if okshape and not post:
         names = {pair(r)[0][2] for r in inl if pair(r)[0][0] == "loop" and pair(r)[0][1] == lid}
         okshape = len(names) == 1 and all(pair(r)[0][0] == "loop" for r in inl)
@@ -104,10 +109,49 @@ def run(eng, ctx, with_socket=True):
     if not okshape:
         ctx.bad("C12.D2", dq, "return", expected="return (decoded, partial): the loop-carried variables after the loop, or (decoded so far, partial) at the exits inside it", found=", ".join(show(r.term)[:60] for r in rets), **loc)
         return
+    tells = {e.term[1]: e for e in se.effects if e.kind == "call" and e.term[2] == ("attr", ins, "tell") and not e.term[3]}
+    whole = [e.term for e in se.effects if e.kind == "call" and e.term[2] == ("attr", ins, "getvalue") and not e.term[3] and not e.loops and not any(c.seq < e.seq for c in consumes)]
+
+    def between_positions(t, conj):
+        """data[tell_1 : tell_2] with data the whole segment: the pieces consumed between the two position reads, in order."""
+        if t[0] == "slice" and t[1] in whole and t[4] == ("const", None) and t[2][0] == "call" and t[3][0] == "call" and t[2][1] in tells and t[3][1] in tells:
+            s1, s2 = tells[t[2][1]].seq, tells[t[3][1]].seq
+            pieces = [c for c in consumes if s1 < c.seq < s2 and all(lit in conj for lit in c.guards) and c.term[2][2] in ("readline", "read")]
+            if any(c.loops and c.loops[-1] == lid for c in pieces) and not (tells[t[2][1]].loops and tells[t[2][1]].loops[-1] == lid):
+                return t  # the start position was taken outside the loop: pieces of earlier iterations lie in between, which one symbolic iteration does not show
+            out_t = None
+            for c in pieces:
+                out_t = c.term if out_t is None else ("bin", "+", out_t, c.term)
+            return out_t if out_t is not None else ("const", b"")
+        return t
+
+    # a variable that every iteration which goes round again leaves untouched still holds its value from before the loop
+    def stable(v):
+        again = [st_.env.get(v, ("loop", lid, v)) for k_, st_ in info.get("ends", []) if k_ == "continue"] + ([info["body_end"].get(v, ("loop", lid, v))] if not info.get("body_dead") and info.get("body_end") is not None else [])
+        return all(x == ("loop", lid, v) for x in again)
+
+    def part_at(env, conj):
+        if part_expr is None:
+            pv_ = env.get(partv, ("loop", lid, partv)) if partv else ("const", b"")
+            if partv and pv_ == ("loop", lid, partv) and stable(partv) and info["pre"].get(partv) is not None:
+                pv_ = info["pre"][partv]
+            return pv_
+        m = {st: env.get(st[2], ("loop", lid, st[2])) for st in subterms(part_expr) if isinstance(st, tuple) and len(st) == 3 and st[0] == "loopout" and st[1] == lid}
+
+        def sub(t):
+            if isinstance(t, tuple):
+                if t in m:
+                    return m[t]
+                return tuple(sub(x) if isinstance(x, tuple) else x for x in t)
+            return t
+
+        return between_positions(sub(part_expr), conj)
+
     exits = []
     for k_, st_ in info.get("ends", []):
         if k_ == "break":
-            exits.append(Exit("break", st_.dnf, st_.seq, st_.env.get(outv, ("loop", lid, outv)), st_.env.get(partv, ("loop", lid, partv)) if partv else ("const", b""), st_.env))
+            for conj_ in st_.dnf:
+                exits.append(Exit("break", (conj_,), st_.seq, st_.env.get(outv, ("loop", lid, outv)), part_at(st_.env, conj_), st_.env))
     for r in inl:
         exits.append(Exit("return", r.dnf, r.seq, pair(r)[0], pair(r)[1]))
     okinit = info["pre"].get(outv) == ("const", b"") and (partv is None or info["pre"].get(partv) == ("const", b""))
@@ -179,11 +223,11 @@ def run(eng, ctx, with_socket=True):
                           found=cat.render(segs) if segs else show(pv)[:80], detail=f"exit under {lbl}", **eng.loc(f, incomplete[0].node))
                 continue
             if any(c[0] == "caught" and "ValueError" in c[3] for c, p in conj if p):
-                ctx.ok("C12.D2", dq, "exit on malformed size line", found=EXEMPT_EXITS["ValueError"], **loc)
+                ctx.check(pv == ("const", b""), "C12.D2", dq, "exit on malformed size line", expected=EXEMPT_EXITS["ValueError"] + "; nothing is carried into the next segment", found=show(pv)[:60], **loc)
                 continue
             zero = any(c[0] == "cmp" and c[3] == ("const", 0) and ((c[1] == "==" and p) or (c[1] == "!=" and not p)) and c[2][0] == "call" and c[2][2] == ("builtin", "int") for c, p in conj)
             if zero:
-                ctx.ok("C12.D2", dq, "exit on the terminating zero chunk", found=EXEMPT_EXITS["zero-chunk"], **loc)
+                ctx.check(pv == ("const", b""), "C12.D2", dq, "exit on the terminating zero chunk", expected=EXEMPT_EXITS["zero-chunk"] + "; nothing is carried into the next segment (a carried size line would end the next segment at once)", found=show(pv)[:60], **loc)
                 continue
             ctx.bad("C12.D2", dq, f"exit under {lbl}", expected="an incompleteness exit carrying the consumed bytes, or one of the two named exits", found="loop left with consumed bytes neither decoded nor carried", **loc)
     ctx.instance("loop exits classified", nexit, 3)
